@@ -2975,7 +2975,8 @@ where
                                 }
                                 self.publish_recv.insert(packet_id);
 
-                                if !self.qos2_publish_handled.insert(packet_id) {
+                                // recorded as handled only once the packet is accepted (below)
+                                if self.qos2_publish_handled.contains(&packet_id) {
                                     already_handled = true;
                                 }
                                 if self.status == ConnectionStatus::Connected
@@ -3051,6 +3052,12 @@ where
                         }
 
                         // Send response packets
+                        if packet.qos() == Qos::ExactlyOnce {
+                            // accepted: retransmissions of this message are not delivered again
+                            self.qos2_publish_handled
+                                .insert(packet.packet_id().unwrap());
+                        }
+
                         if puback_send {
                             let puback = v5_0::GenericPuback::builder()
                                 .packet_id(packet.packet_id().unwrap())
